@@ -406,7 +406,8 @@ class Emitter:
                     cops = {'add': '+', 'sub': '-', 'mul': '*', 'and': '&', 'or': '|', 'xor': '^', 'shl': '<<', 'lshr': '>>',
                             'udiv': '/', 'urem': '%'}
                     if op == 'sub' and s.is_plike(a) and s.is_plike(bb):
-                        w('  %s = (uint64_t)(%s - %s);' % (res, s.pval(a), s.pval(bb)))
+                        # equal pointers (in particular NULL - NULL of an empty std::vector) must fold to 0: cbmc does not simplify NULL - NULL
+                        w('  %s = (%s == %s) ? (uint64_t)0 : (uint64_t)(%s - %s);' % (res, s.pval(a), s.pval(bb), s.pval(a), s.pval(bb)))
                     elif op in cops:
                         w('  %s = %s;' % (res, s.mask(ty, '%s %s %s' % (s.val(a), cops[op], s.val(bb)))))
                     elif op == 'ashr':
@@ -431,6 +432,12 @@ class Emitter:
                         w('  %s = %s;' % (res, s.mask(I.ty, s.val(v))))
                     else:
                         w('  %s = (%s)%s;' % (res, s.ctype(I.ty), s.val(v)))
+                elif op == 'icmp' and I.extra['pred'] in ('eq', 'ne') and (s.is_plike(I.args[0]) != s.is_plike(I.args[1])) \
+                        and isinstance(I.args[0], Local) and isinstance(I.args[1], Local):
+                    # an integer kept in a pointer-typed cell (union { T *a[3]; struct { T **p; size_t n; }; }, suspend_point) compared with a
+                    # genuine integer: cbmc folds (uintptr_t)(uint8_t*)6ul == 4ul but not (uint8_t*)6ul == (uint8_t*)4ul
+                    pa, pb = [('(uint64_t)(uintptr_t)' + s.pval(x)) if s.is_plike(x) else s.val(x) for x in I.args[:2]]
+                    w('  %s = (uint8_t)(%s %s %s);' % (res, pa, '==' if I.extra['pred'] == 'eq' else '!=', pb))
                 elif op == 'icmp' and I.extra['pred'] in ('eq', 'ne') and (s.is_plike(I.args[0]) or s.is_plike(I.args[1])):
                     w('  %s = (uint8_t)(%s %s %s);' % (res, s.pval(I.args[0]), '==' if I.extra['pred'] == 'eq' else '!=', s.pval(I.args[1])))
                 elif op == 'icmp':
@@ -456,19 +463,21 @@ class Emitter:
                     w('  ;')
                 elif op == 'cmpxchg' and id(I) in s.asptr:
                     p, c, n = I.args
+                    w('  RT_CHK(%s, 8);' % s.val(p))      # atomic accesses are guarded like plain loads/stores
                     w('  { uint8_t* old_ = *(uint8_t**)%s; %s.f0 = old_; %s.f1 = (old_ == %s); if (%s.f1) *(uint8_t**)%s = %s; }' %
                       (s.val(p), res, res, s.pval(c), res, s.val(p), s.pval(n)))
                 elif op == 'atomicrmw' and id(I) in s.asptr:
                     p, v = I.args
-                    w('  %s = *(uint8_t**)%s; *(uint8_t**)%s = %s;' % (res, s.val(p), s.val(p), s.pval(v)))
+                    w('  RT_CHK(%s, 8); %s = *(uint8_t**)%s; *(uint8_t**)%s = %s;' % (s.val(p), res, s.val(p), s.val(p), s.pval(v)))
                 elif op == 'cmpxchg':
                     p, c, n = I.args
+                    w('  RT_CHK(%s, %d);' % (s.val(p), s.sizeof_align(c.ty)[0]))
                     w('  { %s old_ = *%s; %s.f0 = old_; %s.f1 = (old_ == %s); if (%s.f1) *%s = %s; }' %
                       (s.ctype(c.ty), s.val(p), res, res, s.val(c), res, s.val(p), s.val(n)))
                 elif op == 'atomicrmw':
                     p, v = I.args
                     k = I.extra['rmw']
-                    w('  %s = *%s;' % (res, s.val(p)))
+                    w('  RT_CHK(%s, %d); %s = *%s;' % (s.val(p), s.sizeof_align(I.ty)[0], res, s.val(p)))
                     e = {'xchg': '%s' % s.val(v), 'add': '%s + %s' % (res, s.val(v)), 'sub': '%s - %s' % (res, s.val(v)),
                          'and': '%s & %s' % (res, s.val(v)), 'or': '%s | %s' % (res, s.val(v)), 'xor': '%s ^ %s' % (res, s.val(v))}[k]
                     w('  *%s = %s;' % (s.val(p), s.mask(I.ty, e)))
@@ -631,6 +640,19 @@ class Emitter:
                     news[I.res] = None
         if not news: return news
         casts = {}     # local -> (src new local)
+        # a phi that merges exactly one operator-new block with other storage (cocls::stack_storage::alloc inlined into a coroutine
+        # ramp: alloca'd buffer or `new char[frame+1]`) is an alias of that block for the purpose of finding the frame type
+        alias = {}
+        for b in f.blocks:
+            for I in b.instrs:
+                if I.op == 'phi' and I.res:
+                    srcs = [v.name for v, _ in I.extra['incoming'] if isinstance(v, Local) and v.name in news]
+                    if len(srcs) == 1: alias[I.res] = srcs[0]
+        for b in f.blocks:
+            for I in b.instrs:
+                if I.op == 'bitcast' and isinstance(I.args[0], Local) and I.args[0].name in alias and I.args[0].name not in news \
+                        and isinstance(I.ty, PtrT) and isinstance(I.ty.to, PtrT) and isinstance(I.ty.to.to, FuncT):
+                    casts[I.res] = (alias[I.args[0].name], None)      # only used by the `store @X.resume` rule below
         for b in f.blocks:
             for I in b.instrs:
                 if I.op == 'bitcast' and isinstance(I.args[0], Local) and I.args[0].name in news:
@@ -667,6 +689,22 @@ class Emitter:
                     news[src] = to
                 except Exception:
                     pass
+        # block only ever used as i8* but filled by memcpy/memmove from a typed array (std::copy into `new T*[n]` whose
+        # address is then stored into an i8* slot, e.g. suspend_point::add's regrowth): element type of the source
+        for b in f.blocks:
+            for I in b.instrs:
+                if I.op in ('call', 'invoke') and isinstance(I.extra.get('callee'), Global) \
+                        and (I.extra['callee'].name.startswith('llvm.memcpy') or I.extra['callee'].name.startswith('llvm.memmove')) \
+                        and isinstance(I.args[0], Local) and I.args[0].name in news and news[I.args[0].name] is None:
+                    try:
+                        t0 = s.origin_type(I.args[1])
+                        r = s.resolve(t0) if t0 is not None else None
+                        while isinstance(r, ArrT):
+                            t0 = r.el; r = s.resolve(t0)
+                        if isinstance(r, PtrT) or (isinstance(r, IntT) and r.bits > 8):
+                            s.sizeof_align(t0); news[I.args[0].name] = t0
+                    except Exception:
+                        pass
         return news
 
     def result_type(s, I, ltypes):
@@ -703,7 +741,10 @@ class Emitter:
             else: w('  %s(%s, %s, %s);' % ('memmove' if 'memmove' in name else 'memcpy', s.val(args[0]), s.val(args[1]), s.val(args[2])))
             done = True
         elif name and name.startswith('llvm.memset'):
-            w('  memset(%s, %s, %s);' % (s.val(args[0]), s.val(args[1]), s.val(args[2]))); done = True
+            ts = s.typed_set(args[0], args[1], args[2])
+            if ts: w(ts)
+            else: w('  memset(%s, %s, %s);' % (s.val(args[0]), s.val(args[1]), s.val(args[2])))
+            done = True
         elif name and re.match(r'llvm\.(umax|umin)\.', name):
             o = '>' if 'umax' in name else '<'
             w('  %s = (%s %s %s) ? %s : %s;' % (res, s.val(args[0]), o, s.val(args[1]), s.val(args[0]), s.val(args[1]))); done = True
@@ -752,6 +793,9 @@ class Emitter:
                 k_ = args[0].v // esz
                 if k_ == 1: w('  %s = (uint8_t*)malloc(sizeof(%s)); rt_new_note(%s);' % (res, ct, res))
                 else: w('  %s = (uint8_t*)malloc(sizeof(%s) * %d); rt_new_note(%s);' % (res, ct, k_, res))
+            elif isinstance(args[0], ConstInt) and esz and args[0].v > esz and args[0].v < 2 * esz:
+                # one T followed by a few trailing bytes (stack_storage's "heap allocated" flag byte behind a coroutine frame)
+                w('  %s = (uint8_t*)malloc(sizeof(struct { %s a_; uint8_t pad_[%d]; })); rt_new_note(%s);' % (res, ct, args[0].v - esz, res))
             elif esz:
                 w('  %s = (uint8_t*)malloc(sizeof(%s) * (%s / %d)); rt_new_note(%s);' % (res, ct, s.val(args[0]), esz, res))
             done = True
@@ -831,6 +875,86 @@ class Emitter:
             return out
         return None
 
+    def enclosing_member(s, v):
+        """(outer struct type, byte offset) when v is (a bitcast of) a constant-index GEP `gep %T* %p, 0, i, j, ...`; else None.
+        Nested constant GEPs are followed outwards as long as the covered type grows."""
+        try:
+            d = s.defs.get(v.name) if isinstance(v, Local) else None
+            if d is not None and d.op == 'bitcast' and isinstance(d.args[0], Local): d = s.defs.get(d.args[0].name)
+            best = None; add = 0
+            while d is not None and d.op == 'getelementptr' and isinstance(d.args[0], Local) and len(d.args) >= 3 \
+                    and all(isinstance(a, ConstInt) for a in d.args[1:]) and d.args[1].v == 0:
+                ty = d.extra.get('src_ty'); off = 0; cur = ty
+                for a in d.args[2:]:
+                    r = s.resolve(cur)
+                    if isinstance(r, StructT):
+                        o = 0
+                        for k, e in enumerate(r.els):
+                            es, ea = s.sizeof_align(e)
+                            if r.packed: ea = 1
+                            o = (o + ea - 1) // ea * ea
+                            if k == a.v: break
+                            o += es
+                        else: return best
+                        off += o; cur = r.els[a.v]
+                    elif isinstance(r, ArrT):
+                        off += a.v * s.sizeof_align(r.el)[0]; cur = r.el
+                    else: return best
+                add += off
+                best = (ty, add)
+                d = s.defs.get(d.args[0].name)
+                if d is not None and d.op == 'bitcast' and isinstance(d.args[0], Local): d = s.defs.get(d.args[0].name)
+            return best
+        except Exception:
+            return None
+
+    def typed_set(s, dst, val, n):
+        """memset of a constant byte over part of an operator-new block whose element type was inferred (coroutine frame:
+        clang zero-fills a run of promise fields through `i8* frame+off`): typed stores per scalar leaf, so that CBMC keeps
+        the fields constant instead of a byte_update over a struct. None = not applicable (plain memset is emitted)."""
+        try:
+            if not (isinstance(val, ConstInt) and isinstance(n, ConstInt) and isinstance(dst, Local)): return None
+            base, off = dst.name, 0
+            d = s.defs.get(dst.name)
+            if d is not None and d.op == 'getelementptr' and len(d.args) == 2 and isinstance(d.args[0], Local) \
+                    and isinstance(d.args[1], ConstInt) and isinstance(d.extra.get('src_ty'), IntT):
+                if d.extra['src_ty'].bits != 8: return None
+                base, off = d.args[0].name, d.args[1].v
+            ty = s.alloc_types.get(base)
+            if ty is None:
+                # memset over (a prefix of) a typed object, e.g. `bitcast %struct.X* %alloca to i8*`: clang merges the
+                # zero-initialisation of adjacent members (ints and pointers) into one memset
+                ty, off = s.origin_type(dst), 0
+                if ty is not None and n.v > s.sizeof_align(ty)[0]:
+                    # the run starts at a member and continues over its following siblings (`bitcast (gep %struct.X* %p, 0, k, ...)`):
+                    # widen to the enclosing struct the member pointer was derived from
+                    w_ = s.enclosing_member(dst)
+                    if w_ is not None: ty, off = w_
+            if ty is None or off < 0: return None
+            nb = n.v
+            if nb <= 0 or off + nb > s.sizeof_align(ty)[0]: return None
+            l = s.leaves(ty, off + nb)
+            if l is None: return None
+            sel = []
+            for o, kind, sz in l:
+                if o + sz <= off: continue
+                if o < off: return None                  # the range starts inside a scalar
+                sel.append((o - off, kind, sz))
+            if not sel or len(sel) > 64 or sel[-1][0] + sel[-1][2] < nb - 7: return None
+            b = val.v & 0xff
+            if b != 0 and any(k == 'p' for _, k, _ in sel): return None
+            dv = s.val(dst)
+            st = ['  {']
+            for o, kind, sz in sel:
+                if kind == 'p': st.append(' RT_CHK(%s + %d, %d); *(uint8_t**)(%s + %d) = (uint8_t*)0;' % (dv, o, sz, dv, o))
+                elif sz in (1, 2, 4, 8):
+                    st.append(' RT_CHK(%s + %d, %d); *(uint%d_t*)(%s + %d) = %dULL;' % (dv, o, sz, sz * 8, dv, o, int.from_bytes(bytes([b]) * sz, 'little')))
+                else: return None
+            st.append(' }')
+            return ''.join(st)
+        except Exception:
+            return None
+
     def typed_copy(s, dst, src, n, is_move):
         td, ts = s.origin_type(dst), s.origin_type(src)
         if td is None and ts is None: return None
@@ -871,12 +995,13 @@ class Emitter:
             t = 'uint8_t*' if isinstance(r, PtrT) else 'uint%d_t' % (esz * 8)
             nn = s.val(n)
             if is_move:
-                return ('  { %s *d_ = (%s*)%s, *s_ = (%s*)%s; uint64_t n_ = (%s) / %d, i_; '
-                        'if ((uint8_t*)d_ <= (uint8_t*)s_) { for (i_ = 0; i_ < n_; i_++) { RT_CHK(d_ + i_, %d); RT_CHK(s_ + i_, %d); d_[i_] = s_[i_]; } } '
+                return ('  { %s *d_ = (%s*)%s; %s *s_ = (%s*)%s; uint64_t n_ = (%s) / %d, i_; '
+                        'if (RT_DISTINCT_OBJ(d_, s_) || (uint8_t*)d_ <= (uint8_t*)s_) { for (i_ = 0; i_ < n_; i_++) { RT_CHK(d_ + i_, %d); RT_CHK(s_ + i_, %d); d_[i_] = s_[i_]; } } '
                         'else { for (i_ = n_; i_ > 0; i_--) { RT_CHK(d_ + i_ - 1, %d); RT_CHK(s_ + i_ - 1, %d); d_[i_ - 1] = s_[i_ - 1]; } } }'
-                        % (t, t, d, t, sr, nn, esz, esz, esz, esz, esz))
-            return ('  { %s *d_ = (%s*)%s, *s_ = (%s*)%s; uint64_t n_ = (%s) / %d, i_; '
-                    'for (i_ = 0; i_ < n_; i_++) { RT_CHK(d_ + i_, %d); RT_CHK(s_ + i_, %d); d_[i_] = s_[i_]; } }' % (t, t, d, t, sr, nn, esz, esz, esz))
+                        % (t, t, d, t, t, sr, nn, esz, esz, esz, esz, esz))
+            # (each pointer gets its own declaration: with t == 'uint8_t*' a shared declarator list would make s_ a uint8_t*)
+            return ('  { %s *d_ = (%s*)%s; %s *s_ = (%s*)%s; uint64_t n_ = (%s) / %d, i_; '
+                    'for (i_ = 0; i_ < n_; i_++) { RT_CHK(d_ + i_, %d); RT_CHK(s_ + i_, %d); d_[i_] = s_[i_]; } }' % (t, t, d, t, t, sr, nn, esz, esz, esz))
         except Exception:
             return None
 
@@ -1009,7 +1134,11 @@ EXT_MODELS = {
     'sched_yield': ('rt_ret0', 0), 'pthread_self': ('rt_pthread_self', 0), 'syscall': ('rt_syscall', 4),
     '__errno_location': ('rt_errno_location', 0), 'strcmp': ('rt_strcmp', 2),
     '_ZNSt13runtime_errorC1EPKc': ('rt_nop', 0), '_ZNSt13runtime_errorD1Ev': ('rt_nop', 0),
+    '_ZNSt17bad_function_callD1Ev': ('rt_nop', 0),       # only its address is taken (destructor argument of __cxa_throw in cocls::function)
     'pthread_mutex_lock': ('rt_mutex_lock', 1), 'pthread_mutex_unlock': ('rt_mutex_unlock', 1),
+    # virtual clock (C12): see rt.h
+    '_ZNSt6chrono3_V212system_clock3nowEv': ('rt_system_clock_now', 0), 'clock_gettime': ('rt_clock_gettime', 2),
+    'pthread_cond_timedwait': ('rt_cond_timedwait', 3), 'pthread_cond_clockwait': ('rt_cond_clockwait', 4),
 }
 
 
